@@ -1,6 +1,6 @@
 """X10 (extension) -- ConvolvedFluxes.sort_to_match / utils.misc.order_to_match (spec/SortMatch.tla): every (model_names, requested
 names) pair up to three names is replayed on a real ConvolvedFluxes object whose flux rows carry their original row number, in three
-spellings of the request (array, list, names padded with trailing blanks): outcome, new names and which row ended up where."""
+spellings of the request (array, list, names padded with trailing blanks) and once with the object's own names padded: outcome, new names and which row ended up where."""
 import numpy as np
 
 import os
@@ -18,15 +18,16 @@ def replay_chunk(behs):
     for b in behs:
         names = [NAME[i] for i in b['names']]
         req = [NAME[i] for i in b['req']]
-        for spelling in ('array', 'list', 'padded'):
+        for spelling in ('array', 'list', 'padded', 'object_padded'):
             col.replayed += 1
             c = ConvolvedFluxes()
-            c.model_names = np.array(names)
+            c.model_names = np.array([x + '  ' for x in names]) if spelling == 'object_padded' else np.array(names)
             c.apertures = [1., 2.] * u.au
             rows = np.arange(1, len(names) + 1, dtype=float)
             c.flux = np.outer(rows, [1., 10.]) * u.mJy
             c.error = np.outer(rows, [0.1, 1.]) * u.mJy
-            r = {'array': np.array(req), 'list': list(req), 'padded': np.array([x + '  ' for x in req])}[spelling]
+            r = {'array': np.array(req), 'list': list(req), 'padded': np.array([x + '  ' for x in req]), 'object_padded': np.array(req)}[spelling]
+            want = b['out_padded_obj'] if spelling == 'object_padded' else b['out']
             try:
                 c.sort_to_match(r)
                 got = 'ok'
@@ -35,8 +36,11 @@ def replay_chunk(behs):
             except Exception as e:
                 got = 'Exception' if type(e) is Exception else type(e).__name__
             bad = None
-            if got != b['out']:
-                bad = 'outcome %s, spec %s' % (got, b['out'])
+            if got != want:
+                bad = 'outcome %s, spec %s' % (got, want)
+            elif spelling == 'object_padded':
+                if [str(x) for x in c.model_names] != [x + '  ' for x in names] or [int(round(x)) for x in c.flux.value[:, 0]] != list(range(1, len(names) + 1)):
+                    bad = 'a refused call changed the object'
             else:
                 gn = [str(x) for x in c.model_names]
                 wn = [NAME[i] for i in b['new_names']]
@@ -72,6 +76,7 @@ def run(ctx):
     ctx.notes['mc_constants'] = 'object and request of 1..%d names' % n + ' over 3 distinct names (duplicates included); 3 spellings of the request'
     ctx.notes['behaviours_emitted'] = len(em)
     ctx.notes['named_behaviours_reachable'] = ['SilentTruncation']
+    ctx.notes['named_behaviours_replayed'] = ['LongerIsIndexError', 'OwnNamesNotStripped']
     ctx.sample({'behaviour': em[len(em) // 2]})
     for col in pmap(replay_chunk, em):
         col.merge_into(ctx)
